@@ -96,6 +96,7 @@ class ScenarioInterp(Interp):
         Interp.__init__(self, prog, decisions, stats, opts)
         self.result = result
         self.inputs = {}
+        self.observed = {}
         self.world = World()
         self.check_timeout_ms = (opts or {}).get('check_timeout_ms', 60000)
 
@@ -179,9 +180,26 @@ class ScenarioInterp(Interp):
     def outcome(self, label):
         self.result.outcomes[label] = self.result.outcomes.get(label, 0) + 1
 
+    def observe(self, key, term):
+        """register an observable (evaluated in counterexample models and compared with the native replay)"""
+        self.observed[key] = term
+
     def model_values(self):
         m = self.ctx.model()
         out = {}
+        obs = {}
+        for k, t in self.observed.items():
+            if isinstance(t, (str, bool)) or t is None:
+                obs[k] = t
+            elif isinstance(t, int):
+                obs[k] = t
+            else:
+                try:
+                    v = m.eval(smt.toz(t), model_completion=True)
+                    obs[k] = v.as_long() if z3.is_int_value(v) else (True if z3.is_true(v) else (False if z3.is_false(v) else str(v)))
+                except Exception:
+                    pass
+        out['_obs'] = obs
         for k, v in self.inputs.items():
             try:
                 val = m.eval(v, model_completion=True)
